@@ -381,5 +381,30 @@ theorem roundtrip_semantic (q a : Bool) (cfg cfg0 : Config) (arpa fixed : List N
   rw [hsearch]
   simp [vocabSize, Kind.isTrie]
 
+open KV.TrieLM KV.Score in
+/-- **roundtrip_semantic_queries** (trie models) — the query clause of the round trip, spelled out: after the loader has
+recovered its configuration from the stored parameters, *every* `FullScore` call (any state, any word, any decoding `fval` of
+the 32-bit values) and every left-to-right sentence score over the loaded file equals the same call on the structure the writer
+laid out.  Together with `KV.C03TrieBuild.trie_end_to_end` (the written structure answers the ARPA back-off recursion) this is
+"a binary file answers exactly like the ARPA it was built from", for all four trie classes. -/
+theorem roundtrip_semantic_queries (q a : Bool) (cfg cfg0 : Config) (arpa fixed : List Nat) (sawUnk iv : Bool) (sl mem : Nat)
+    (hp : cfg.probBits < 256) (hb : cfg.backoffBits < 256) (hh : cfg.bhikshaBits < 256)
+    (hlen : fixed.length = arpa.length)
+    (h0 : cnt fixed 0 = cnt arpa 0 + (if sawUnk then 0 else 1))
+    (hrd : ∀ p ∈ storedParamBytes (.trie q a) cfg fixed (writeLayout (.trie q a) cfg arpa fixed sawUnk iv sl).search,
+        load8 mem p.1 = p.2) :
+    let w := writeLayout (.trie q a) cfg arpa fixed sawUnk iv sl
+    ∃ cfg', updateConfigFromBinary (.trie q a) (load8 mem) w.storedCounts cfg0 = .ok cfg' ∧
+      ∀ (fval : Nat → Rat),
+        (∀ st wd, fullScore (search fval (ofLayout mem q a cfg' w.storedCounts (loadLayout (.trie q a) cfg' w.storedCounts).search)) st wd
+          = fullScore (search fval (ofLayout mem q a cfg w.storedCounts w.search)) st wd) ∧
+        (∀ st ws, scoreSeq (search fval (ofLayout mem q a cfg' w.storedCounts (loadLayout (.trie q a) cfg' w.storedCounts).search)) st ws
+          = scoreSeq (search fval (ofLayout mem q a cfg w.storedCounts w.search)) st ws) := by
+  intro w
+  obtain ⟨cfg', hu, he⟩ := roundtrip_semantic q a cfg cfg0 arpa fixed sawUnk iv sl mem hp hb hh hlen h0 hrd
+  refine ⟨cfg', hu, fun fval => ?_⟩
+  rw [he]
+  exact ⟨fun _ _ => rfl, fun _ _ => rfl⟩
+
 
 end KV.C04
